@@ -1149,10 +1149,27 @@ r3:
 		chkReq := func(fn *ssa.Function, lit, key, what string) {
 			ok := false
 			if fn != nil {
-				for _, ci := range w.callsIn(fn, EvCall("Request", req)) {
+				sites := w.callsIn(fn, EvCall("Request", req))
+				if len(sites) == 0 {
+					// through a private "ask the agent" helper of the facade
+					if g2 := w.delegating(fn, EvCall("Request", req)); g2 != nil {
+						for _, in := range g2.ins {
+							if ci, isC := in.(ssa.CallInstruction); isC && EvCall("Request", req).M(in) {
+								sites = append(sites, ci)
+							}
+						}
+					}
+				}
+				for _, ci := range sites {
 					c := ci.Common()
 					tn := ""
-					if mi, isMI := c.Args[2].(*ssa.MakeInterface); isMI {
+					msgV := c.Args[2]
+					if prm, isP := msgV.(*ssa.Parameter); isP {
+						if av, okA := w.subParam(prm); okA {
+							msgV = av
+						}
+					}
+					if mi, isMI := msgV.(*ssa.MakeInterface); isMI {
 						if nn, isN := types.Unalias(mi.X.Type()).(*types.Named); isN {
 							tn = "lit:" + pinnedShortName(nn) + "{"
 						}
@@ -1328,7 +1345,13 @@ func checkC19(w *World, r *Report) {
 					}
 					p := w.pathOf(iff.Cond)
 					if strings.HasSuffix(p, ".Success") {
-						e, _ := g.EdgeOf(g.idx[in], false)
+						// the unsuccessful edge: the false edge of `x.Success`, the true edge of `!x.Success`
+						neg := 0
+						for strings.HasPrefix(p, "!") {
+							p = p[1:]
+							neg++
+						}
+						e, _ := g.EdgeOf(g.idx[in], neg%2 == 1)
 						if reachFromEdges(g, []Edge{e}, nil)[bn] {
 							okS, detail = false, "an unsuccessful activation response is announced"
 						}
